@@ -9,7 +9,7 @@
    periodic chain are modelled (Model/Problems.v) and tied to /repo by exact comparison of the produced matrices and by
    combinatorial oracles on the implementation (harness/props/c10.py); no theorem about their ground states is claimed. *)
 From QV.Model Require Import Base Matrix Arith Expr Extrema Sat PCBO Logic Convert PCSO Problems.
-From QV.Proofs Require Import BaseProofs KeyProofs ArithProofs PenaltyArith PCBOProofs ProblemsProofs SetCoverProofs.
+From QV.Proofs Require Import BaseProofs KeyProofs ArithProofs PenaltyArith PCBOProofs ProblemsProofs SetCoverProofs ChainPbc.
 From Coq Require Import Lia.
 Open Scope Q_scope.
 
@@ -55,6 +55,19 @@ Theorem C10_asc_ground : forall N chain min_s max_s H z, asc_to_quso N chain min
   forall q, (q < N - 1)%nat -> z q * z (S q) == 1.
 Proof. exact asc_ground. Qed.
 Print Assumptions C10_asc_ground.
+
+(* periodic boundary, N >= 3: the closing coupling (N-1, 0) is added; the ground states are still the uniform states *)
+Theorem C10_asc_value_pbc : forall N chain min_s max_s H, asc_to_quso N chain min_s max_s true = Ok H -> (3 <= N)%nat ->
+  forall z, spin_env z ->
+  eval z (tm H) == chain_sum (asc_strength chain min_s max_s) z (seq 0 (N - 1))
+                   + asc_strength chain min_s max_s (N - 1) * (z 0%nat * z (N - 1)%nat).
+Proof. exact asc_value_pbc. Qed.
+Print Assumptions C10_asc_value_pbc.
+Theorem C10_asc_ground_pbc : forall N chain min_s max_s H z, asc_to_quso N chain min_s max_s true = Ok H -> (3 <= N)%nat ->
+  0 < min_s -> 0 < max_s -> spin_env z -> (forall z', spin_env z' -> eval z (tm H) <= eval z' (tm H)) ->
+  (forall q, (q < N - 1)%nat -> z q * z (S q) == 1) /\ z 0%nat * z (N - 1)%nat == 1.
+Proof. exact asc_ground_pbc. Qed.
+Print Assumptions C10_asc_ground_pbc.
 
 (* ---- BILP: minimise c.x subject to S x = b (integer data) ---- *)
 Theorem C10_bilp_value : forall c S b A B Qf, bilp_to_qubo c S b A B = Ok Qf ->
